@@ -401,3 +401,205 @@ pub fn write_if_changed(path: &std::path::Path, content: &str) -> std::io::Resul
     }
     std::fs::write(path, content)
 }
+
+// ---------------------------------------------------------------------------
+// C14: ambiguous declaration sets and their collision-free twins
+// ---------------------------------------------------------------------------
+
+#[derive(Clone, Debug)]
+pub struct C14Set {
+    pub class: &'static str,
+    pub decls: Vec<String>,
+    pub std_cmds: bool,
+    pub err_cmds: bool,
+}
+
+#[derive(Clone, Debug)]
+pub struct C14Pair {
+    pub ambiguous: C14Set,
+    pub twin: C14Set,
+}
+
+fn set(class: &'static str, decls: &[&str], std_cmds: bool, err_cmds: bool) -> C14Set {
+    C14Set { class, decls: decls.iter().map(|s| s.to_string()).collect(), std_cmds, err_cmds }
+}
+
+pub fn is_ambiguous(s: &C14Set) -> Option<(usize, usize, Vec<String>)> {
+    let strs: Vec<&str> = s.decls.iter().map(|x| x.as_str()).collect();
+    Model::new(&strs, s.std_cmds, s.err_cmds).collision()
+}
+
+/// Hand-written collision classes, each with a minimally different twin.
+pub fn c14_fixed() -> Vec<C14Pair> {
+    let p = |a: C14Set, t: C14Set| C14Pair { ambiguous: a, twin: t };
+    vec![
+        p(set("identical", &["A:B", "A:B"], false, false), set("identical", &["A:B", "A:B?"], false, false)),
+        p(set("identical", &["MEAS:VOLT?", "MEAS:VOLT?"], false, false), set("identical", &["MEAS:VOLT?", "MEAS:VOLT"], false, false)),
+        p(set("identical-common", &["*RST", "*RST"], false, false), set("identical-common", &["*RST", "*RST?"], false, false)),
+        p(set("short-equals-long", &["VOLTage", "VOLT"], false, false), set("short-equals-long", &["VOLTage", "VOLTX"], false, false)),
+        p(set("short-equals-long", &["MEAS:VOLTage?", "MEAS:VOLT?"], false, false), set("short-equals-long", &["MEAS:VOLTage?", "MEAS:VOLT"], false, false)),
+        p(set("short-equals-long", &["TeST:A", "TST:A"], false, false), set("short-equals-long", &["TeST:A", "TS:A"], false, false)),
+        p(set("short-equals-long", &["SYSTem:A", "SYST:A", "B"], false, false), set("short-equals-long", &["SYSTem:A", "SYS:A", "B"], false, false)),
+        p(set("case-only", &["VOLTage", "VOLTAGE"], false, false), set("case-only", &["VOLTage", "VOLTAGES"], false, false)),
+        p(set("case-only", &["RANGe:AUTO?", "RANGE:AUTO?"], false, false), set("case-only", &["RANGe:AUTO?", "RANGE:AUTO"], false, false)),
+        p(set("optional-leading", &["[A]:B", "B"], false, false), set("optional-leading", &["[A]:B", "B?"], false, false)),
+        p(set("optional-leading", &["[SOURce]:FREQ?", "FREQ?"], false, false), set("optional-leading", &["SOURce:FREQ?", "FREQ?"], false, false)),
+        p(set("optional-trailing", &["A:[B]", "A"], false, false), set("optional-trailing", &["A:B", "A"], false, false)),
+        p(set("optional-trailing", &["SYSTem:ERRor:[NEXT]?", "SYSTem:ERRor?"], false, false), set("optional-trailing", &["SYSTem:ERRor:NEXT?", "SYSTem:ERRor?"], false, false)),
+        p(set("optional-middle", &["A:[B]:C", "A:C"], false, false), set("optional-middle", &["A:[B]:C", "A:D"], false, false)),
+        p(set("optional-middle", &["OUTP:[STATe]:ON?", "OUTPut:ON?"], false, false), set("optional-middle", &["OUTP:[STATe]:ON?", "OUTPut:ON"], false, false)),
+        p(set("both-optional", &["[A]:C", "[B]:C"], false, false), set("both-optional", &["[A]:C", "[B]:D"], false, false)),
+        p(set("both-optional", &["[X]:[Y]:Z?", "[Y]:Z?"], false, false), set("both-optional", &["[X]:[Y]:Z?", "[Q]:Z"], false, false)),
+        p(set("optional-short-long", &["[VOLTage]:DC", "VOLT:DC"], false, false), set("optional-short-long", &["[VOLTage]:DC", "VOLT:AC"], false, false)),
+        p(set("deep-prefix", &["A:B:C:Dd", "A:B:C:D"], false, false), set("deep-prefix", &["A:B:C:Dd", "A:B:C:DX"], false, false)),
+        p(set("deep-prefix", &["AAa:B:C?", "AA:B:C?"], false, false), set("deep-prefix", &["AAa:B:C?", "AAA:B:C"], false, false)),
+        p(set("standard-version", &["SYSTem:VERSion?"], true, false), set("standard-version", &["SYSTem:VERSion?"], false, false)),
+        p(set("standard-version", &["SYST:VERS?", "X"], true, false), set("standard-version", &["SYST:VERS", "X"], true, false)),
+        p(set("standard-error", &["SYSTem:ERRor?"], false, true), set("standard-error", &["SYSTem:ERRor?"], false, false)),
+        p(set("standard-error", &["SYST:ERR:NEXT?"], false, true), set("standard-error", &["SYST:ERR:NEXT"], false, true)),
+        p(set("standard-error", &["SYSTem:ERRor:COUNt?"], true, true), set("standard-error", &["SYSTem:ERRor:COUNt?"], true, false)),
+        p(set("standard-error", &["SYSTEM:ERROR:COUN?", "A"], false, true), set("standard-error", &["SYSTEM:ERROR:COUNX?", "A"], false, true)),
+        p(set("third-of-three", &["A", "B", "C", "D:E", "C"], false, false), set("third-of-three", &["A", "B", "C", "D:E", "C?"], false, false)),
+        p(set("query-vs-query", &["A:B?", "[X]:A:B?", "A:[C]:B?"], false, false), set("query-vs-query", &["A:B?", "[X]:A:B", "A:[C]:D?"], false, false)),
+    ]
+}
+
+/// Derives an ambiguous set from a random collision-free one, and a twin.
+pub fn c14_random(rng: &mut Rng) -> Option<C14Pair> {
+    let path_style = rng.chance(1, 2);
+    let base = random_iface("x", rng, path_style);
+    let mut decls: Vec<String> = base.decls.iter().map(|d| d.cmd.clone()).collect();
+    if decls.len() > 6 {
+        decls.truncate(6);
+    }
+    let victim = rng.pick(&decls).clone();
+    let dcl = parse_decl(&victim);
+    if dcl.is_common() {
+        return None;
+    }
+    // a second declaration that shares one spelling of the victim
+    let sps = dcl.spellings();
+    let sp = rng.pick(&sps).clone();
+    let class: &'static str;
+    let mut parts: Vec<String> = sp.clone();
+    match rng.below(4) {
+        0 => {
+            class = "random/same-spelling";
+        }
+        1 => {
+            // prepend an optional node that is not in use at this position
+            class = "random/extra-optional-leading";
+            parts.insert(0, "[ZQ]".to_string());
+        }
+        2 => {
+            class = "random/extra-optional-trailing";
+            let last = parts.pop().unwrap();
+            parts.push(last);
+            parts.insert(parts.len() - 1, "[ZQ]".to_string());
+        }
+        _ => {
+            // lower-case tail: long form differs, short form is the shared spelling
+            class = "random/longer-long-form";
+            let last = parts.pop().unwrap();
+            parts.push(format!("{}zq", last));
+        }
+    }
+    let mut extra = parts.join(":");
+    if dcl.query {
+        extra.push('?');
+    }
+    if self_collides(&extra) {
+        return None;
+    }
+    let mut amb = decls.clone();
+    amb.insert(rng.below(decls.len() + 1), extra.clone());
+    let a = C14Set { class, decls: amb.clone(), std_cmds: base.std_cmds, err_cmds: base.err_cmds };
+    is_ambiguous(&a)?;
+    // twin: the extra declaration gets the other kind; if that collides too, a changed letter
+    let other_kind = if extra.ends_with('?') { extra[..extra.len() - 1].to_string() } else { format!("{}?", extra) };
+    let mut tw = amb.clone();
+    let pos = tw.iter().position(|d| *d == extra).unwrap();
+    tw[pos] = other_kind;
+    let mut t = C14Set { class, decls: tw, std_cmds: base.std_cmds, err_cmds: base.err_cmds };
+    if is_ambiguous(&t).is_some() {
+        let mut tw = amb;
+        let changed = extra.replacen(|c: char| c.is_ascii_uppercase(), "QZ", 1);
+        tw[pos] = changed;
+        t = C14Set { class, decls: tw, std_cmds: base.std_cmds, err_cmds: base.err_cmds };
+        if is_ambiguous(&t).is_some() || t.decls.iter().any(|d| self_collides(d) || !parse_decl(d).nodes.iter().all(|n| spellable(&n.long))) {
+            return None;
+        }
+    }
+    Some(C14Pair { ambiguous: a, twin: t })
+}
+
+pub fn emit_c14_module(s: &C14Set) -> String {
+    let mut o = String::new();
+    o.push_str("// generated by mon::genr (C14) - do not edit\n#![allow(dead_code)]\n");
+    if s.err_cmds {
+        o.push_str("pub struct Dev { q: ::microscpi::StaticErrorQueue<2> }\n");
+        o.push_str("impl ::microscpi::ErrorCommands for Dev {\n    fn error_queue(&mut self) -> &mut impl ::microscpi::ErrorQueue { &mut self.q }\n}\n");
+    }
+    else {
+        o.push_str("pub struct Dev;\nimpl ::microscpi::ErrorHandler for Dev {\n    fn handle_error(&mut self, _e: ::microscpi::Error) {}\n}\n");
+    }
+    if s.std_cmds {
+        o.push_str("impl ::microscpi::StandardCommands for Dev {}\n");
+    }
+    let attrs: Vec<&str> = [(s.std_cmds, "StandardCommands"), (s.err_cmds, "ErrorCommands")].iter().filter(|(b, _)| *b).map(|(_, n)| *n).collect();
+    if attrs.is_empty() {
+        o.push_str("#[::microscpi::interface]\n");
+    }
+    else {
+        o.push_str(&format!("#[::microscpi::interface({})]\n", attrs.join(", ")));
+    }
+    o.push_str("impl Dev {\n");
+    for (i, d) in s.decls.iter().enumerate() {
+        o.push_str(&format!("    #[scpi(cmd = {:?})]\n    pub fn h{}(&mut self) -> Result<(), ::microscpi::Error> {{ Ok(()) }}\n", d, i));
+    }
+    o.push_str("}\n");
+    o
+}
+
+/// Emits crates `amb` and `twin` under `dir` plus `sets.json` describing them.
+pub fn emit_c14(dir: &std::path::Path, repo: &str, pairs: &[C14Pair]) -> std::io::Result<()> {
+    use crate::out::J;
+    for (cname, pick_amb) in [("amb", true), ("twin", false)] {
+        let cdir = dir.join(cname);
+        let _ = std::fs::remove_dir_all(cdir.join("src"));
+        std::fs::create_dir_all(cdir.join("src"))?;
+        let mut lib = String::from("// generated - do not edit\n");
+        for (k, p) in pairs.iter().enumerate() {
+            let s = if pick_amb { &p.ambiguous } else { &p.twin };
+            lib.push_str(&format!("pub mod m{};\n", k));
+            std::fs::write(cdir.join("src").join(format!("m{}.rs", k)), emit_c14_module(s))?;
+        }
+        std::fs::write(cdir.join("src/lib.rs"), lib)?;
+        std::fs::write(
+            cdir.join("Cargo.toml"),
+            format!("[package]\nname = \"c14{}\"\nversion = \"0.0.0\"\nedition = \"2021\"\n\n[workspace]\n\n[dependencies]\nmicroscpi = {{ path = \"{}/microscpi\" }}\n", cname, repo),
+        )?;
+    }
+    let mut arr = Vec::new();
+    for (k, p) in pairs.iter().enumerate() {
+        let col = is_ambiguous(&p.ambiguous);
+        arr.push(J::obj(vec![
+            ("module", J::s(format!("m{}", k))),
+            ("class", J::s(p.ambiguous.class)),
+            ("ambiguous", J::strs(p.ambiguous.decls.clone())),
+            ("ambiguous_attrs", J::s(format!("std={} err={}", p.ambiguous.std_cmds, p.ambiguous.err_cmds))),
+            ("twin", J::strs(p.twin.decls.clone())),
+            ("twin_attrs", J::s(format!("std={} err={}", p.twin.std_cmds, p.twin.err_cmds))),
+            (
+                "shared_spelling",
+                match &col {
+                    Some((i, j, sp)) => J::s(format!("declarations #{} and #{} share {}", i, j, sp.join(":"))),
+                    None => J::Null,
+                },
+            ),
+            ("model_says_ambiguous", col.is_some().into()),
+            ("model_says_twin_collision_free", is_ambiguous(&p.twin).is_none().into()),
+        ]));
+    }
+    std::fs::write(dir.join("sets.json"), J::Arr(arr).to_string())
+}
